@@ -1,5 +1,6 @@
 #!/usr/bin/env python3
-"""Runs every seeded change (seeded/*) and every un-fix (mutants/unfix-*.diff) against the quick check of the
+"""(name-filter is a regular expression; results are merged into MATRIX.tsv.)
+Runs every seeded change (seeded/*) and every un-fix (mutants/unfix-*.diff) against the quick check of the
 properties it is supposed to break, on scratch copies of /repo (tools/eval_seed.sh), in parallel lanes.
 Writes /verif/seeded/MATRIX.tsv. usage: run_matrix.py [lanes] [tier] [name-filter]"""
 import json, os, re, subprocess, sys, glob, concurrent.futures, threading
@@ -19,7 +20,7 @@ for line in kf["fixed"]:
 for sha, props in byfix.items():
     if os.path.exists(f"/verif/mutants/unfix-{sha}.diff"):
         jobs.append((f"unfix:{sha}", sorted(set(props))))
-jobs = [j for j in jobs if flt in j[0]]
+jobs = [j for j in jobs if re.search(flt, j[0])]
 free = list(range(lanes))
 lock = threading.Lock()
 rows = []
@@ -47,9 +48,18 @@ with concurrent.futures.ThreadPoolExecutor(max_workers=lanes) as ex:
         for r in res:
             rows.append(r)
             print("\t".join(r), flush=True)
+# merge with the rows of earlier (partial) runs: the newest result of a (change, property) pair wins
+old = {}
+if os.path.exists("/verif/seeded/MATRIX.tsv"):
+    for l in open("/verif/seeded/MATRIX.tsv").read().splitlines()[1:]:
+        c = l.split("\t")
+        if len(c) >= 4:
+            old[(c[0], c[1])] = tuple(c[:4])
+for r in rows:
+    old[(r[0], r[1])] = r
 with open("/verif/seeded/MATRIX.tsv", "w") as f:
     f.write("change\tproperty\texit\tfirst violation\n")
-    for r in sorted(rows):
-        f.write("\t".join(r) + "\n")
+    for k in sorted(old):
+        f.write("\t".join(old[k]) + "\n")
 det = sum(1 for r in rows if r[2] == "1")
 print(f"{det}/{len(rows)} (change, property) pairs detected")
